@@ -73,6 +73,19 @@ def stepStream (d : Dir) (ws : List String) : Dir × String :=
     | some i, some m => faultRes d (.trunc i (m != 0))
     | _, _ => (d, "bad-op")
   | ["close"] => faultRes d .close
+  | ["set-counters", c] =>
+    -- verification hook: both ends of this direction are fast-forwarded to frame counter c (nothing in flight)
+    match nat? c with
+    | some c =>
+      if d.ch.wire = [] ∧ d.r.unread = [] then
+        ({ d with w := { d.w with nonce := UInt64.ofNat c }, r := { d.r with nonce := UInt64.ofNat c } }, "ok")
+      else (d, "bad-state")
+    | none => (d, "bad-op")
+  | ["inc", c] =>
+    match nat? c with
+    | some c => (d, toString (Gen.Transport.incrementNonce (UInt64.ofNat c)).toNat)
+    | none => (d, "bad-op")
+  | ["counters"] => (d, toString d.w.nonce.toNat ++ " " ++ toString d.r.nonce.toNat)
   | ["replay-hs", dir, i, j] =>
     -- a ciphertext frame recorded during the encrypted part of the HANDSHAKE of this connection, spliced in at
     -- position j: frame i of this direction (dir 0: same key, nonce i) or of the opposite one (dir 1: other key)
